@@ -247,7 +247,7 @@ def check_construct(case, pres, mods):
   return data, bad
 
 
-def check_index(data, case, pres, mods):
+def check_index(data, case, pres, mods, bystander=None):
   """Sets the geo index of `data` and compares everything that depends on it."""
   np = mods[1]
   ids = ids_of(case, pres)
@@ -286,6 +286,13 @@ def check_index(data, case, pres, mods):
   ncols = len(seq(case['win']))
   for a in seq(case['aggs']):
     s = set(seq(a['s']))
+    if bystander is not None:
+      # another data object (another panel, its own geo index) is alive and is asked for the same positions first
+      try:
+        bystander.aggregate_time_series(set(s))
+        bystander.aggregate_geo_share(set(s))
+      except Exception:  # pylint: disable=broad-except
+        pass
     ts = np.asarray(data.aggregate_time_series(set(s)))
     want_ts = seq(a['ts'])
     if ts.shape != (ncols,) or not all(close(x, w) for x, w in zip(ts, want_ts)):
@@ -357,10 +364,22 @@ def replay_group(group):
     if (first['keep'] + len(first['rows'])) % 2 == 0:
       # ... and the table may come back with its rows in another order (rows are found by geo ID, not by position)
       data.df = data.df.iloc[::-1]
+  bystander = None
+  if (len(members) + first['nd'] + first['ng']) % 3 == 0:
+    # a second object over a DIFFERENT panel (same geos and dates, every response tripled plus a ramp) with its own
+    # index over all its assignable geos; it lives as long as the group and is consulted between the calls
+    try:
+      df2, gelig2 = build_inputs(first, pres, mods[0], mods[3])
+      col = pres['response_col']
+      df2[col] = [3.0 * float(v) + 11.0 + (j % 7) if v == v else v for j, v in enumerate(df2[col])]
+      bystander = mods[2](df2, col, gelig2)
+      bystander.geo_index = [g for g in bystander.df.index if g in bystander.assignable]
+    except Exception:  # pylint: disable=broad-except
+      bystander = None
   for n, case in members:
     if not case['has_order']:
       raise tlc.MachineryError('a finished case of an accepted construction has no order')
-    out.append((n, check_index(data, case, pres, mods)))
+    out.append((n, check_index(data, case, pres, mods, bystander)))
   return out
 
 
